@@ -3,6 +3,7 @@ package chk
 import (
 	"fmt"
 	"strings"
+	"sync"
 	"testing"
 
 	datatransfer "github.com/filecoin-project/go-data-transfer/v2"
@@ -57,6 +58,64 @@ func TestC06Crash(t *testing.T) {
 		endW := c.Rng.Intn(6)
 		var trace []string
 		queries := 0
+		// queries that land while a write of the channel's record is stalled inside the datastore:
+		// whatever they return must already be in the write log when they return
+		var qmu sync.Mutex
+		type lateQ struct {
+			v      *doubles.StateView
+			logLen int
+			chid   datatransfer.ChannelID
+		}
+		var lateQs []lateQ
+		stalled, nput := 0, 0
+		ds.SetHook(func(op, key string) error {
+			if op != "put" || !strings.HasPrefix(key, "/3/") {
+				return nil
+			}
+			qmu.Lock()
+			nput++
+			do := stalled < 12 && nput%3 == 0 // (no PRNG here: this runs on the state machine goroutine)
+			var target *chInfo
+			if do {
+				for _, ch := range chs {
+					if strings.HasSuffix(key, "/"+ch.chid.String()) {
+						target = ch
+					}
+				}
+				if target != nil {
+					stalled++
+				}
+			}
+			qmu.Unlock()
+			if target == nil {
+				return nil
+			}
+			done := make(chan struct{})
+			go func() {
+				defer close(done)
+				st, err := f.cs.GetByID(bg, target.chid)
+				if err != nil {
+					return
+				}
+				v, _ := doubles.ViewOf(st)
+				n := ds.LogLen()
+				qmu.Lock()
+				lateQs = append(lateQs, lateQ{v, n, target.chid})
+				qmu.Unlock()
+			}()
+			// hold the write back with cooperative yields (never a virtual sleep: the state machine
+			// group lock is held by callers waiting for this goroutine) until the query either
+			// returned or has had ample opportunity to
+			for i := 0; i < 400; i++ {
+				select {
+				case <-done:
+					return nil
+				default:
+					doubles.Yield(1)
+				}
+			}
+			return nil
+		})
 		for i := 0; i < nops; i++ {
 			ch := gen.Pick(c.Rng, chs)
 			op := genOp(c.Rng, &ch.bc, endW)
@@ -87,6 +146,26 @@ func TestC06Crash(t *testing.T) {
 			settle()
 		}
 		settle()
+		ds.SetHook(nil)
+		qmu.Lock()
+		for _, q := range lateQs {
+			log := ds.Log()[:q.logLen]
+			key := keyFor(log, q.chid)
+			found := false
+			for j := len(log) - 1; j >= 0 && !found; j-- {
+				if log[j].Key == key && !log[j].Del {
+					if dv, err := recordToView(log[j].Val); err == nil && sameView(dv, q.v) {
+						found = true
+					}
+				}
+			}
+			queries++
+			c.Count("stalled_write_queries", 1)
+			if !found {
+				c.Violation("C06", "query-not-durable status="+q.v.Status.String(), "a query issued while a write was stalled returned a state that was in no write-log entry when it returned: %s", q.v)
+			}
+		}
+		qmu.Unlock()
 		// in-progress listing must be durable too
 		if all, err := f.cs.InProgress(); err == nil {
 			snap := ds.Snapshot()
